@@ -18,7 +18,7 @@ CLAIMED = {
                 design='DESIGN.md 4/C01'),
     'C06': dict(text='Bounded model checking of BDDEnv::fp with a symbolic total transformer (all functions on 1..2 variables, 8 / 64 unknown table bits) and of lfp/gfp formulas: fixed-point sketches (bodies up to 3 internal nodes, all labels symbolic, shadowing by inner binders included) through the real MIR against the reference iteration semantics, termination within the unrolling bound, plus extremality (below/above every fixed point P, P an unknown table) of the reference result for syntactically monotone bodies.',
                 design='DESIGN.md 4/C06'),
-    'C08': dict(text='Bounded model checking of the real MIR of the recursive-descent parser on token arrays of length 0..6 (8 thorough) whose kinds are unknowns over the full 31-kind alphabet, against an independent reference parser of the documented grammar run on the same symbolic array (both reject, or both accept with structurally equal trees); plus the tokenizer\'s text-to-token table executed from MIR under a contract model of the regex engine, and the TOKENIZER pattern itself (read from src/parser.rs) executed symbolically under leftmost-first semantics on every text of <= 6 (8 thorough) unknown characters over 27 character classes against the documented lexical grammar (alternation order, greedy matching, comments and separators). The regex crate\'s implementation is outside the claim.',
+    'C08': dict(text='Bounded model checking of the real MIR of the recursive-descent parser on token arrays of length 0..6 (8 thorough) whose kinds are unknowns over the full 31-kind alphabet, against an independent reference parser of the documented grammar run on the same symbolic array (both reject, or both accept with structurally equal trees); plus the tokenizer\'s text-to-token table executed from MIR under a contract model of the regex engine, and the TOKENIZER pattern itself (read from src/parser.rs) executed symbolically under leftmost-first semantics on every text of <= 8 (12 thorough) unknown characters over 27 character classes against the documented lexical grammar (alternation order, greedy matching, comments and separators). The regex crate\'s implementation is outside the claim.',
                 design='DESIGN.md 4/C08'),
     'C10': dict(text='Bounded model checking of the real MIR of print_truth_table_recursive (rsbdd binary) on the canonical diagram of an unknown truth table over 1..3 free variables, unknown filter, ParsedFormula from the real constructor, symbolic ids: for a symbolic total assignment exactly one recorded row covers it when the filter admits its value and none otherwise, with the right result; -m composition (model then print); TruthTableEntry::from_str on an unknown string. Whole-main units: the real MIR of main under concrete command lines ({-e, file, stdin} x {-t, -v, -m, -r} x -f unknown x -b 1..3) with the formula a symbolic sketch (clap, file system, tokenizer, parser replaced by their contracts; printing primitives by recorders): header, partition, -r, and the table invariant on entry of every evaluation. Text layout and clap parsing itself are outside the claim.',
                 design='DESIGN.md 4/C10'),
